@@ -158,7 +158,12 @@ def scenarios(prop, tier, seed):
     for gi, (gname, opts, share) in enumerate(fam['gens']):
         rng = random.Random(f'{prop}:{gname}:{gi}:{seed}')
         for i in range(int(total * share)):
-            yield f'{gname}{gi}:{seed}:{i}', GENS[gname](rng, **opts), None, f'{gname}{gi}'
+            sc = GENS[gname](rng, **opts)
+            if len(sc['buses']) > 1 and 'bus_order' not in sc:
+                order = list(range(len(sc['buses'])))
+                rng.shuffle(order)
+                sc['bus_order'] = order     # iteration order of EventBus.all_instances (unspecified in the library)
+            yield f'{gname}{gi}:{seed}:{i}', sc, None, f'{gname}{gi}'
 
 
 def nontrivial(prop, sc, lines):
